@@ -301,7 +301,13 @@ def finish(pid, tier, seed, sel, results, cmds, solver_time, assumptions, units,
         out_lines.append('VIOLATION property=%s replay=%s obligation=%s%s' % (pid, rp, ob['id'], tail))
 
     samples = []
-    for u, ob in sel[:6]:
+    seen_units = set()
+    KEY = ('next.post', 'next.progress', 'get_any', '.table', 'contract', 'operate', 'tables', 'claims', 'files', 'gen_reg_value', 'iter.step', 'consistent')
+    ranked = sorted(sel, key=lambda t: 0 if any(k in t[1]['id'] for k in KEY) else 1)
+    pick = [t for t in ranked if t[0]['unit'] not in seen_units and not seen_units.add(t[0]['unit'])]   # one per unit first
+    pick += [t for t in ranked if t not in pick and any(k in t[1]['id'] for k in KEY)][:6]
+    pick += [t for t in sel if t not in pick][:max(0, 8 - len(pick))]
+    for u, ob in pick[:12]:
         samples.append({'obligation': ob['id'], 'clause': ob['clause'], 'backend': results[ob['id']].get('backend'),
                         'result': results[ob['id']]['status']})
     by_backend = {}
@@ -310,6 +316,13 @@ def finish(pid, tier, seed, sel, results, cmds, solver_time, assumptions, units,
         if r['status'] == 'discharged':
             by_backend[r.get('backend', u['backend'])] = by_backend.get(r.get('backend', u['backend']), 0) + 1
     assumptions = list(dict.fromkeys(assumptions + scan_assumptions(units) + meta.get('assumptions', [])))
+    # every assumption must be on the committed allow-list
+    from . import trusted as trusted_mod
+    allow = trusted_mod.listed()
+    unlisted = [a for a in assumptions if allow is not None and trusted_mod.norm(a) not in allow
+                and not a.startswith('auto-included helper')]
+    for a in unlisted:
+        undecided.append(({'id': 'trusted-base'}, {'why': 'assumption not listed in contracts/TRUSTED.md: ' + a[:200]}))
     level = meta['level']
     cov = {
         'obligations': len(proved),
